@@ -62,15 +62,20 @@ impl Profile {
     }
 }
 
-pub const KINDS: [ErrorKind; 7] = [
+pub const KINDS: [ErrorKind; 10] = [
     ErrorKind::Other,
     ErrorKind::UnexpectedEof,
     ErrorKind::TimedOut,
     ErrorKind::WouldBlock,
     ErrorKind::PermissionDenied,
     ErrorKind::BrokenPipe,
+    ErrorKind::Unsupported,
+    ErrorKind::InvalidInput,
+    ErrorKind::NotSeekable,
     ErrorKind::Interrupted, // only used for seek faults (a read returning it is legal, not a fault)
 ];
+/// Kinds a failing *read* may carry (everything but Interrupted).
+pub const READ_KINDS: usize = 9;
 
 pub fn kind_name(k: ErrorKind) -> &'static str {
     match k {
@@ -82,6 +87,8 @@ pub fn kind_name(k: ErrorKind) -> &'static str {
         ErrorKind::BrokenPipe => "BrokenPipe",
         ErrorKind::Interrupted => "Interrupted",
         ErrorKind::InvalidInput => "InvalidInput",
+        ErrorKind::Unsupported => "Unsupported",
+        ErrorKind::NotSeekable => "NotSeekable",
         _ => "Other",
     }
 }
@@ -326,6 +333,8 @@ pub struct ReaderState {
     pub failure_in_op: bool,
     /// ... ever, on this stream
     pub failure_ever: bool,
+    /// a failure other than a transient `Interrupted` seek was delivered during this op
+    pub hard_failure_in_op: bool,
     /// byte ranges delivered during the current op (merged when contiguous)
     pub delivered: Vec<(u64, u64)>,
     pub events_in_op: u32,
@@ -350,6 +359,7 @@ impl ReaderState {
             pending_fail: None,
             failure_in_op: false,
             failure_ever: false,
+            hard_failure_in_op: false,
             delivered: Vec::with_capacity(64),
             events_in_op: 0,
             events: Vec::with_capacity(EVENT_LOG_CAP),
@@ -365,6 +375,7 @@ impl ReaderState {
         self.call_in_op = 0;
         self.events_in_op = 0;
         self.failure_in_op = false;
+        self.hard_failure_in_op = false;
         self.step_cap_hit = false;
         self.delivered.clear();
     }
@@ -431,6 +442,9 @@ fn make_err(kind: ErrorKind, seq: u64) -> io::Error {
         ErrorKind::TimedOut => Some(110),        // ETIMEDOUT
         ErrorKind::PermissionDenied => Some(13), // EACCES
         ErrorKind::BrokenPipe => Some(32),       // EPIPE
+        ErrorKind::Unsupported => Some(38),      // ENOSYS
+        ErrorKind::InvalidInput => Some(22),     // EINVAL
+        ErrorKind::NotSeekable => Some(29),      // ESPIPE
         ErrorKind::Other => Some(5),             // EIO (kind Uncategorized on current std)
         _ => None,
     };
@@ -511,6 +525,7 @@ impl Read for SimReader {
         if let Some(kind) = s.pending_fail.take() {
             s.counters.pending_fail += 1;
             s.failure_in_op = true;
+                    s.hard_failure_in_op = true;
             s.failure_ever = true;
             ev.dec = DEC_PENDING_FAIL;
             ev.result = err_code(kind);
@@ -525,6 +540,7 @@ impl Read for SimReader {
                 Fault::EofEarly { .. } => {
                     if avail > 0 {
                         s.failure_in_op = true;
+                    s.hard_failure_in_op = true;
                         s.failure_ever = true;
                     }
                     ev.result = 0;
@@ -533,6 +549,7 @@ impl Read for SimReader {
                 }
                 Fault::Fail { kind, .. } | Fault::PartialThenFail { kind, .. } => {
                     s.failure_in_op = true;
+                    s.hard_failure_in_op = true;
                     s.failure_ever = true;
                     ev.result = err_code(kind);
                     s.log(ev);
@@ -552,6 +569,7 @@ impl Read for SimReader {
                         s.counters.fail_transient += 1;
                     }
                     s.failure_in_op = true;
+                    s.hard_failure_in_op = true;
                     s.failure_ever = true;
                     ev.dec = DEC_FAIL;
                     ev.result = err_code(kind);
@@ -567,6 +585,7 @@ impl Read for SimReader {
                     }
                     if avail > 0 {
                         s.failure_in_op = true;
+                    s.hard_failure_in_op = true;
                         s.failure_ever = true;
                     }
                     ev.dec = DEC_EOF_EARLY;
@@ -678,6 +697,7 @@ impl Seek for SimReader {
             if let Fault::Fail { kind, .. } = f {
                 s.counters.sticky_repeat += 1;
                 s.failure_in_op = true;
+                    s.hard_failure_in_op = true;
                 s.failure_ever = true;
                 ev.dec = DEC_STICKY;
                 ev.result = err_code(kind);
@@ -691,6 +711,9 @@ impl Seek for SimReader {
             }
             s.counters.seek_fail += 1;
             s.failure_in_op = true;
+            if sticky || kind != ErrorKind::Interrupted {
+                s.hard_failure_in_op = true;
+            }
             s.failure_ever = true;
             ev.dec = DEC_FAIL;
             ev.result = err_code(kind);
